@@ -119,6 +119,28 @@ mod verif_c17 {
         std::mem::forget(it);
     }
 
+    // @harness id=C17 tier=thorough timeout=3400 mem=14
+    // @bounds nth(k), k in 0..=3, on an inner iterator of 2 items wrapped in a bar that abandons on exhaustion: same result as the inner iterator's nth, and the position advances by exactly the number of items the inner iterator handed out (also when nth runs past the end)
+    #[kani::proof]
+    #[kani::unwind(6)]
+    #[kani::stub(crate::state::AtomicPosition::allow, never_allow)]
+    //@STUBS std now noterm nomulti norender rlany noweight
+    fn c17_iter_nth_counts_pulled_items() {
+        let k: usize = kani::any();
+        kani::assume(k <= 3);
+        let pb = bar(5, ProgressFinish::Abandon);
+        let mut it = ProgressBarIter { it: MockIter { n: 2, items: [7, 8, 9], front: 0, back: 0, taken: 0 }, progress: pb };
+        let mut model = MockIter { n: 2, items: [7, 8, 9], front: 0, back: 0, taken: 0 };
+        let a = it.nth(k);
+        let b = model.nth(k);
+        assert!(a == b);
+        assert!(pos_of(&it.progress) == 5 + model.taken as u64);
+        assert!(it.it.taken == model.taken);
+        kani::cover!(k == 3 && a.is_none());
+        kani::cover!(k == 1 && a == Some(8));
+        std::mem::forget(it);
+    }
+
     // ---------------------------------------------------------------- io mocks
     /// every call returns a symbolic verdict: Ok(n) with n <= what was asked for, or Err(kind)
     struct MockIo {
